@@ -625,65 +625,41 @@ func sortArray(v any) (any, error) {
 		return v, nil
 	}
 
-	r := slices.Clone(a)
-
 	if _, ok := a[0].(string); ok {
-		valid := true
-		var invalidType reflect.Type
-		slices.SortFunc(r, func(a, b any) int {
-			sa, ok := a.(string)
-			if !ok {
-				valid = false
-				invalidType = reflect.TypeOf(a)
-				return -1
-			}
-
-			sb, ok := b.(string)
-			if !ok {
-				valid = false
-				invalidType = reflect.TypeOf(b)
-				return 1
-			}
-
-			return strings.Compare(sa, sb)
-		})
-
-		if !valid {
-			return nil, &InvalidTypeError{
-				got:  invalidType,
-				want: "string",
+		for _, i := range a[1:] {
+			if _, ok := i.(string); !ok {
+				return nil, &InvalidTypeError{
+					got:  reflect.TypeOf(i),
+					want: "string",
+				}
 			}
 		}
+
+		r := slices.Clone(a)
+		slices.SortFunc(r, func(a, b any) int {
+			sa, _ := a.(string)
+			sb, _ := b.(string)
+			return strings.Compare(sa, sb)
+		})
 
 		return r, nil
 	}
 
-	valid := true
-	var invalidType reflect.Type
-	slices.SortFunc(r, func(a, b any) int {
-		da, ok := toDecimal(a)
-		if !ok {
-			valid = false
-			invalidType = reflect.TypeOf(a)
-			return -1
-		}
-
-		db, ok := toDecimal(b)
-		if !ok {
-			valid = false
-			invalidType = reflect.TypeOf(b)
-			return 1
-		}
-
-		return decimal128.Compare(da, db)
-	})
-
-	if !valid {
-		return nil, &InvalidTypeError{
-			got:  invalidType,
-			want: "number",
+	for _, i := range a {
+		if _, ok := toDecimal(i); !ok {
+			return nil, &InvalidTypeError{
+				got:  reflect.TypeOf(i),
+				want: "number",
+			}
 		}
 	}
+
+	r := slices.Clone(a)
+	slices.SortFunc(r, func(a, b any) int {
+		da, _ := toDecimal(a)
+		db, _ := toDecimal(b)
+		return decimal128.Compare(da, db)
+	})
 
 	return r, nil
 }
